@@ -477,7 +477,7 @@ PINNED: dict[str, str] = {
     "_formula_generator.py:_get_grid_component": "4ef698b2748a",
     "_formula_generator.py:_get_grid_component_successors": "e99de2ab6df5",
     "_formula_generator.py:_get_meter_fallback_components": "070a39c333ec",
-    "_formula_generator.py:_get_metric_fallback_components": "065df3b2af2e",
+    "_formula_generator.py:_get_metric_fallback_components": "4a8dc27c888c",
     "_formula_generator.py:_is_primary_fallback_pair": "a618ab1b322e",
     "_formula_generator.py:generate": "da39a3ee5e6b",
     "_formula_generator.py:namespace": "f2c76cc21de3",
